@@ -187,3 +187,14 @@ func StdDecode(d []byte) (v interface{}, end int, err error) {
 	err = dec.Decode(&v)
 	return v, int(dec.InputOffset()), err
 }
+
+// TreeStatsOfDoc reports whether the document's first value contains a string with an
+// escape or a container (used as a non-triviality rule for ownership checks).
+func TreeStatsOfDoc(d []byte) bool {
+	for _, c := range d {
+		if c == '\\' || c == '[' || c == '{' {
+			return true
+		}
+	}
+	return false
+}
